@@ -20,6 +20,7 @@ import (
 	"bufio"
 	"fmt"
 	"io"
+	"io/ioutil"
 	"net/http"
 
 	"github.com/go-netty/go-netty"
@@ -40,6 +41,12 @@ func (*requestCodec) HandleRead(ctx netty.InboundContext, message netty.Message)
 			// TODO: replace request context by the channel context
 			//
 			ctx.HandleRead(request)
+			// skip whatever the handler left unread of the request body,
+			// otherwise it would be parsed as the next request.
+			if nil != request.Body {
+				_, _ = io.Copy(ioutil.Discard, request.Body)
+				_ = request.Body.Close()
+			}
 			// Close indicates whether to close the connection after
 			// replying to this request
 			if request.Close {
